@@ -17,6 +17,7 @@ EvalE(e, env) ==
       [] e.e = "add"   -> EvalE(e.l, env) + EvalE(e.r, env)
       [] e.e = "sub"   -> EvalE(e.l, env) - EvalE(e.r, env)
       [] e.e = "mul"   -> EvalE(e.l, env) * EvalE(e.r, env)
+      [] e.e = "aget"  -> env[e.cell]                                \* a[i] with a public index: the cell is a variable of its own
       [] e.e = "div"   -> EvalE(e.l, env) \div EvalE(e.r, env)      \* exact division (programs divide only when it is exact)
 
 EvalC(c, env) ==
@@ -51,6 +52,9 @@ WhileLoop(s, k, st) ==
 
 ExecStmt(s, st) ==
     CASE s.s = "assign"  -> [st EXCEPT !.env = [st.env EXCEPT ![s.n] = EvalE(s.e, st.env)]]
+      \* a[i] = e : public index -> the cell named s.cell; secret index (a variable) -> the cell s.cells[value + 1]
+      [] s.s = "aset"    -> LET c == IF s.secret THEN s.cells[EvalE(s.i, st.env) + 1] ELSE s.cell IN
+                            [st EXCEPT !.env = [st.env EXCEPT ![c] = EvalE(s.e, st.env)]]
       [] s.s = "if"      -> ExecArms(s, 1, st)
       [] s.s = "breakif" -> IF EvalC(s.c, st.env) THEN [st EXCEPT !.brk = TRUE] ELSE st
       [] s.s = "for"     -> [ForLoop(s, 0, Min(EvalE(s.stop, st.env), s.max), st) EXCEPT !.brk = FALSE]
